@@ -285,6 +285,47 @@ impl<const ROUNDS: usize> XSalsa<ROUNDS> {
     }
 }
 
+// verification-only hooks (off by default): observe / preset the block counter
+#[cfg(feature = "verif-hooks")]
+impl<const ROUNDS: usize> State<ROUNDS> {
+    fn verif_set_counter64(&mut self, counter: u64) {
+        self.state[8] = counter as u32;
+        self.state[9] = (counter >> 32) as u32;
+    }
+
+    fn verif_counter64(&self) -> u64 {
+        (self.state[8] as u64) | ((self.state[9] as u64) << 32)
+    }
+}
+
+#[cfg(feature = "verif-hooks")]
+impl<const ROUNDS: usize> Salsa<ROUNDS> {
+    /// (verification hook) the 64 bits block counter of the next block to generate
+    pub fn verif_block_counter(&self) -> u64 {
+        self.state.verif_counter64()
+    }
+
+    /// (verification hook) set the 64 bits block counter; the next byte is the first of that block
+    pub fn verif_set_block_counter(&mut self, counter: u64) {
+        self.state.verif_set_counter64(counter);
+        self.offset = 64;
+    }
+}
+
+#[cfg(feature = "verif-hooks")]
+impl<const ROUNDS: usize> XSalsa<ROUNDS> {
+    /// (verification hook) the 64 bits block counter of the next block to generate
+    pub fn verif_block_counter(&self) -> u64 {
+        self.state.verif_counter64()
+    }
+
+    /// (verification hook) set the 64 bits block counter; the next byte is the first of that block
+    pub fn verif_set_block_counter(&mut self, counter: u64) {
+        self.state.verif_set_counter64(counter);
+        self.offset = 64;
+    }
+}
+
 #[cfg(test)]
 mod test {
     use super::{Salsa20, XSalsa20};
